@@ -351,7 +351,10 @@ def scope_chain_rule(ctx, rid, core):
         rec = [x for x in calls if x["def"] == d]
         other = sorted({H.last(x["def"]) for x in calls if x["def"] != d})
         mentions_parent = any(H.kind(y) == "Field" and y.get("name") == "parent" for y in H.walk(f["body"]))
-        if rec:
+        loops = [x for x in H.walk(f["body"]) if H.kind(x) in ("Loop", "While", "For")]
+        if loops and not rec:
+            ctx.inst(rid, "Environment::%s#parent-step" % nm, None, "the scope chain is walked by an explicit loop (not modelled)", H.loc(loops[0]))
+        elif rec:
             ctx.inst(rid, "Environment::%s#parent-step" % nm, True, "the enclosing scope is asked through %s itself" % nm, H.loc(rec[0]))
         elif other:
             ctx.inst(rid, "Environment::%s#parent-step" % nm, False, "the enclosing scope is asked through %s, which does not continue up the chain the way %s does" % (other, nm), H.loc(calls[0]))
